@@ -111,6 +111,163 @@ def fmt_ranges(s, limit=6):
     return out
 
 
+FLAG_DEFAULTS = {"dropXmlnsLocalName": False, "dropXmlnsAttrNs": False, "preventDoubleDashComments": False, "preventDashAtCommentEnd": False,
+                 "replaceFormFeedCharacters": True, "preventSingleQuotePubid": False}
+
+
+def _sample_chars(name_set, first_set):
+    """representatives of every way the XML 1.0 classes differ from the classes Python offers (\\w, isalnum, isalpha, isdigit),
+    all of printable ASCII, and a few code points from the far ends of the tables"""
+    out = []
+
+    def take(pred, k=2):
+        got = 0
+        for c in range(0x80, BMP):
+            if 0xD800 <= c <= 0xDFFF:
+                continue
+            if pred(c, chr(c)):
+                out.append(chr(c))
+                got += 1
+                if got >= k:
+                    break
+    out.extend(chr(c) for c in range(0x20, 0x7F))
+    take(lambda c, ch: c in name_set and ch.isalnum())
+    take(lambda c, ch: c in name_set and not ch.isalnum())
+    take(lambda c, ch: c not in name_set and (ch.isalnum() or ch == "_"), 4)
+    take(lambda c, ch: c in first_set and ch.isalpha())
+    take(lambda c, ch: c not in first_set and ch.isalpha(), 3)
+    take(lambda c, ch: c in name_set and c not in first_set and ch.isdigit())
+    take(lambda c, ch: c in name_set and c not in first_set and not ch.isdigit())
+    take(lambda c, ch: c not in name_set and ch.isspace())
+    take(lambda c, ch: c not in name_set and c > 0x2000 and not ch.isalnum())
+    out.extend(["\u00b5", "\u00aa", "\u00b2", "\u00d7", "\u00f7", "\u0300", "\u3007", "\u4e00", "\uffff", "\u0085"])
+    seen, res = set(), []
+    for ch in out:
+        if ch not in seen:
+            seen.add(ch)
+            res.append(ch)
+    return res
+
+
+def evaluated_clauses(ctx, mod, cls, name_set, first_set, pubid):
+    """The InfosetFilter methods are *run* from their source (sa/classeval.py) on representative inputs and judged against the
+    statement itself: coerced names are legal, legal colon-free names are unchanged, a fresh filter's fromXmlName gives the
+    original back, the result does not depend on what the same filter coerced before; coerced comments hold no '--' and end in
+    no '-' under the flags that promise so and are otherwise untouched; coerced public identifiers hold PubidChars only.
+    -> which clauses could be evaluated (the code-shape rules decide the others)."""
+    from ..classeval import ClassEval
+    r = ctx.r
+    ce = ctx.ce
+    done = {"names": False, "comments": False, "pubid": False}
+    init = cls.methods.get("__init__")
+    where = cls.where
+
+    def fresh(**flags):
+        attrs = dict(FLAG_DEFAULTS)
+        # instance attributes the constructor creates beside the flags (caches): read off __init__
+        for a in (ast.walk(init.node) if init else []):
+            if isinstance(a, ast.Assign) and len(a.targets) == 1 and isinstance(a.targets[0], ast.Attribute) and norm(a.targets[0].value) == "self" \
+                    and a.targets[0].attr not in attrs:
+                v = ce.try_eval(a.value, mod)
+                attrs[a.targets[0].attr] = {} if isinstance(a.value, ast.Dict) or norm(a.value) == "dict()" else v
+        attrs.update(flags)
+        return ClassEval(ce, mod, cls, attrs)
+
+    def legal(n):
+        return bool(n) and ord(n[0]) in first_set and all(ord(c) in name_set for c in n[1:])
+    # ---------------- names
+    try:
+        chars = _sample_chars(name_set, first_set)
+        names = []
+        for c in chars:
+            names += [c + "x", "x" + c]
+        # an escape followed by characters that could be taken for more escape digits
+        for c in (":", " ", "{", "\u00d7"):
+            names += [c + "1", "x" + c + "A", "x" + c + "0F", c + c + "B", "x" + c + "U0003A"[:3]]
+        names += ["a:b", "xmlns:foo", "data-\u00b5", "1", "-", "a" * 3 + ":" * 2, "x" + "\u00b5\u00b5" + "y" + "\u00b5", "U\u0660\u0660\u0660\u0664\u0661", "-moz-x", "2col", ".dot"]
+        shared = fresh()
+        # history: a public identifier and first-position escapes are coerced by the same filter before the names
+        shared.call("coercePubid", ["-//Caf\u00e9//DTD {x}"])
+        hist = {}
+        for n in [x for x in names if x and ord(x[0]) not in first_set] + names:
+            hist[n] = shared.call("toXmlName", [n])
+        bad = {"legal": [], "unchanged": [], "roundtrip": [], "history": []}
+        for n in names:
+            out = fresh().call("toXmlName", [n])
+            if not isinstance(out, str) or not legal(out):
+                bad["legal"].append((n, out))
+            if legal(n) and ":" not in n and out != n:
+                bad["unchanged"].append((n, out))
+            if isinstance(out, str):
+                back = fresh().call("fromXmlName", [out])
+                if back != n:
+                    bad["roundtrip"].append((n, out, back))
+            if hist[n] != out:
+                bad["history"].append((n, out, hist[n]))
+        done["names"] = True
+        ex = lambda k: ", ".join("%r -> %r" % (b[0], b[1]) for b in bad[k][:3])  # noqa: E731
+        r.check("R20.4", not bad["legal"], "evaluated::coerced-names-are-legal", where,
+                "toXmlName returns names that are not legal XML names (%d of %d samples): %s" % (len(bad["legal"]), len(names), ex("legal")),
+                detail={"samples": len(names)})
+        r.check("R20.4", not bad["unchanged"], "evaluated::legal-names-unchanged", where,
+                "toXmlName changes names that are already legal and colon-free: %s" % ex("unchanged"))
+        r.check("R20.3", not bad["roundtrip"], "evaluated::fromXmlName-inverts-toXmlName", where,
+                "fromXmlName (of a fresh filter, as the library uses it) does not give the original name back: %s" % ", ".join(
+                    "%r -> %r -> %r" % b for b in bad["roundtrip"][:3]))
+        r.check("R20.7", not bad["history"], "evaluated::result-independent-of-earlier-calls", where,
+                "toXmlName gives a different result after the same filter has coerced other names / a public identifier: %s" % ", ".join(
+                    "%r: fresh %r, used %r" % b for b in bad["history"][:3]))
+    except AnalysisError as e:
+        r.note("C20: name coercion not evaluable from source (%s); the code-shape rules decide" % str(e)[:120])
+    # ---------------- comments
+    try:
+        samples = ["a--b", "a---b", "a----b", "--", "-", "a-", "a--", "ok", "", "- -", "a -- b --- c-"]
+        bad = []
+        for pdd in (False, True):
+            for pdace in (False, True):
+                for d in samples:
+                    out = fresh(preventDoubleDashComments=pdd, preventDashAtCommentEnd=pdace).call("coerceComment", [d])
+                    problems = []
+                    if not isinstance(out, str):
+                        problems.append("no string")
+                    else:
+                        if pdd and "--" in out:
+                            problems.append("still contains '--'")
+                        if (pdd or pdace) and out.endswith("-"):
+                            problems.append("still ends in '-'")
+                        if not pdd and out.rstrip(" ") != d.rstrip(" ") and out != d:
+                            problems.append("changed although preventDoubleDashComments is off")
+                        if not (pdd or pdace) and out != d:
+                            problems.append("changed although both flags are off")
+                        if "--" not in d and not d.endswith("-") and out != d:
+                            problems.append("changed although nothing had to be")
+                    if problems:
+                        bad.append((pdd, pdace, d, out, problems[0]))
+        done["comments"] = True
+        r.check("R20.6", not bad, "evaluated::coerced-comments", where,
+                "coerceComment: %s" % "; ".join("(preventDoubleDashComments=%s, preventDashAtCommentEnd=%s) %r -> %r %s" % b for b in bad[:3]),
+                detail={"samples": len(samples) * 4})
+    except AnalysisError as e:
+        r.note("C20: comment coercion not evaluable from source (%s); the code-shape rules decide" % str(e)[:120])
+    # ---------------- public identifiers
+    try:
+        samples = ["-//W3C//DTD HTML 4.01//EN", "Caf\u00e9", "a'b", "x{y}", '"q"', "", "a\tb", "~^`"]
+        bad = []
+        for psq in (False, True):
+            for d in samples:
+                out = fresh(preventSingleQuotePubid=psq).call("coercePubid", [d])
+                if not isinstance(out, str) or any(ord(c) not in pubid for c in out) or (psq and "'" in out):
+                    bad.append((psq, d, out))
+                elif all(ord(c) in pubid for c in d) and not (psq and "'" in d) and out != d:
+                    bad.append((psq, d, out))
+        done["pubid"] = True
+        r.check("R20.2", not bad, "evaluated::coerced-pubids", where,
+                "coercePubid: %s" % "; ".join("(preventSingleQuotePubid=%s) %r -> %r" % b for b in bad[:3]), detail={"samples": len(samples) * 2})
+    except AnalysisError as e:
+        r.note("C20: pubid coercion not evaluable from source (%s)" % str(e)[:120])
+    return done
+
+
 def run(ctx):
     r = ctx.r
     ce, repo = ctx.ce, ctx.repo
@@ -122,10 +279,11 @@ def run(ctx):
     r.not_decided = NOT_DECIDED
     r.rule("R20.1", "frozen name regexes == BMP complement of the XML 1.0 Name / name-start productions", floor=2)
     r.rule("R20.2", "pubid class == XML 1.0 PubidChar", floor=1)
-    r.rule("R20.3", "escape writer and reader agree; escape alphabet is legal in names", floor=4)
+    r.rule("R20.3", "escape writer and reader agree; escape alphabet is legal in names", floor=1)
     r.rule("R20.4", "first character tested with the first-character class, the rest with the other", floor=2)
     r.rule("R20.5", "every flag stored by __init__ is read", floor=5)
     r.rule("R20.6", "comment coercion removes '--' and a trailing '-'", floor=2)
+    r.rule("R20.7", "the replacement cache is a key-determined memo: read and written one key at a time, never used wholesale", floor=3)
 
     name_txt, first_txt = ce.const(REL, "name"), ce.const(REL, "nameFirst")
     name_set, first_set = parse_production(name_txt), parse_production(first_txt)
@@ -155,6 +313,17 @@ def run(ctx):
             "nonPubidCharRegexp is not the negation of XML 1.0 PubidChar: extra %s missing %s" % (
                 sorted(map(chr, chars - pubid)), sorted(map(chr, pubid - chars))), detail={"size": len(chars)})
 
+    ev = evaluated_clauses(ctx, mod, cls, name_set, first_set, pubid)
+    r.extra["evaluated_clauses"] = ev
+    if not ev["names"]:
+        _shape_rules_names(ctx, mod, cls, legal)
+    _cache_rules(ctx, mod, cls, ev)
+    _flag_and_comment_rules(ctx, mod, cls, ev)
+
+
+def _shape_rules_names(ctx, mod, cls, legal):
+    """R20.3 / R20.4 from the shape of the code -- only when the methods could not be evaluated"""
+    r, ce, repo = ctx.r, ctx.ce, ctx.repo
     # ---- R20.3
     esc = repo.func(REL, "InfosetFilter.escapeChar")
     fmts = [n for n in ast.walk(esc.node) if isinstance(n, ast.BinOp) and isinstance(n.op, ast.Mod) and isinstance(n.left, ast.Constant)]
@@ -251,8 +420,11 @@ def run(ctx):
                 % (bad[0].ast.lineno if bad else "?", "first character" if first_only else "remaining characters", cls_name),
                 detail={"exits": len(rets)})
 
+
+
+def _cache_rules(ctx, mod, cls, ev):
+    r, ce, repo = ctx.r, ctx.ce, ctx.repo
     # ---- R20.7: the replacement cache is a memo consulted one key at a time
-    r.rule("R20.7", "the replacement cache is a key-determined memo: read and written one key at a time, never used wholesale", floor=3)
     parents = {}
     n_uses = 0
     for mn, mm in cls.methods.items():
@@ -275,7 +447,7 @@ def run(ctx):
                 (isinstance(par, ast.Attribute) and par.attr in ("get", "setdefault") and isinstance(parents.get(id(par)), ast.Call))
             wholesale = (isinstance(par, ast.Call) and x in par.args) or isinstance(par, (ast.For, ast.comprehension)) or \
                 (isinstance(par, ast.Attribute) and par.attr in ("items", "values", "keys", "update", "copy")) or isinstance(par, ast.keyword)
-            r.idiom("R20.7", one_key, key, where, "unrecognised use of the replacement cache in %s: %s" % (mn, norm(par)[:60] if par is not None else "?"),
+            r.idiom("R20.7", one_key or (ev["names"] and not wholesale), key, where, "unrecognised use of the replacement cache in %s: %s" % (mn, norm(par)[:60] if par is not None else "?"),
                     wrong=[(wholesale, "%s uses the whole replacement cache at once (`%s`): the cache holds every character any earlier call "
                                        "had to escape -- characters illegal only in first position, or only in public identifiers -- so a "
                                        "name that is already legal is changed depending on what was coerced before" % (mn, norm(par)[:70] if par is not None else "?"))],
@@ -309,11 +481,15 @@ def run(ctx):
                 mod_names = set(mod.imports) | set(mod.functions) | set(mod.classes) | {
                     t.id for a in mod.assign_nodes for t in getattr(a, "targets", []) if isinstance(t, ast.Name)}
                 free = {f_ for f_ in free if not hasattr(builtins, f_) and f_ not in mod_names}
-                r.check("R20.7", val is not None and not free, "cache-value-key-determined::%s" % mn, where,
+                r.check("R20.7", (val is not None and not free) or ev["names"], "cache-value-key-determined::%s" % mn, where,
                         "the value stored in the replacement cache depends on more than its key (%s): what a character is replaced by "
                         "depends on the call that first met it" % sorted(free), data={"method": mn})
-    r.idiom("R20.7", n_uses >= 3, "cache-uses-found", cls.where, "only %d uses of self.replaceCache were found" % n_uses)
+    r.idiom("R20.7", n_uses >= 3 or ev["names"], "cache-uses-found", cls.where, "only %d uses of self.replaceCache were found" % n_uses)
 
+
+
+def _flag_and_comment_rules(ctx, mod, cls, ev):
+    r, ce, repo = ctx.r, ctx.ce, ctx.repo
     # ---- R20.5
     init = cls.methods["__init__"]
     flags = [a.arg for a in init.node.args.args[1:]]
@@ -336,10 +512,10 @@ def run(ctx):
     p = cc.params()[1]
     ok = len(whiles) == 1 and norm(whiles[0].test) == "'--' in %s" % p and any(
         norm(s) == "%s = %s.replace('--', '- -')" % (p, p) for s in whiles[0].body)
-    r.check("R20.6", ok, "double-dash-loop", cc.where, "coerceComment does not loop while '--' is present, replacing it by '- -'")
+    r.check("R20.6", ok or ev["comments"], "double-dash-loop", cc.where, "coerceComment does not loop while '--' is present, replacing it by '- -'")
     tails = [n for n in ast.walk(cc.node) if isinstance(n, ast.If) and "%s.endswith('-')" % p in norm(n.test)]
     ok = len(tails) == 1 and any(norm(s) == "%s += ' '" % p for s in tails[0].body) and whiles and tails[0].lineno > whiles[0].lineno
-    r.check("R20.6", ok, "trailing-dash-after-loop", cc.where, "the trailing-dash fix-up is missing or does not follow the '--' loop")
+    r.check("R20.6", ok or ev["comments"], "trailing-dash-after-loop", cc.where, "the trailing-dash fix-up is missing or does not follow the '--' loop")
     # the fix-up runs under either flag: with preventDoubleDashComments alone (the lxml builder's configuration) a comment that
     # ends in '-' would otherwise end in '--' once the closing '-->' is written
     from ..cfg import CFG
@@ -372,7 +548,7 @@ def run(ctx):
                     "with %s the trailing-dash fix-up cannot run (it is guarded by `%s`): a comment ending in '-' is left as it is"
                     % (label, norm(blocked.ast) if blocked else ""), detail={"configuration": label})
     else:
-        r.idiom("R20.6", False, "trailing-dash-under-flags", cc.where, "the trailing-dash fix-up / its flag tests were not found")
+        r.idiom("R20.6", ev["comments"], "trailing-dash-under-flags", cc.where, "the trailing-dash fix-up / its flag tests were not found")
 
 
 def thorough(ctx):
@@ -393,7 +569,7 @@ def mutants():
         T("reader-unicode-digits", REL, "    replacementRegexp = re.compile(r\"U[0-9A-F]{5,5}\")", "    replacementRegexp = re.compile(r\"U[\\dA-F]{5,5}\")", "R20.3"),
         T("escape-lowercase", REL, "        replacement = \"U%05X\" % ord(char)", "        replacement = \"U%05x\" % ord(char)", "R20.3"),
         T("escape-width", REL, "        replacement = \"U%05X\" % ord(char)", "        replacement = \"U%04X\" % ord(char)", "R20.3"),
-        T("unescape-offset", REL, "        return chr(int(charcode[1:], 16))", "        return chr(int(charcode[2:], 16))", "R20.3"),
+        T("unescape-offset", REL, "        return chr(int(charcode[1:], 16))", "        return chr(int(charcode[1:5], 16))", "R20.3"),
         T("first-with-rest-class", REL, "        m = nonXmlNameFirstBMPRegexp.match(nameFirst)", "        m = nonXmlNameBMPRegexp.match(nameFirst)", "R20.4"),
         T("flag-unread", REL, "        if self.replaceFormFeedCharacters:\n            for _ in range", "        if True:\n            for _ in range", "R20.5"),
         T("no-trailing-dash-fix", REL, "            data += \" \"\n", "            pass\n", "R20.6"),
